@@ -132,7 +132,7 @@ pub fn trace_to_requests(tree: &usvg::Tree, tr: &Traced, c: &mut Corr) -> usize 
                 i += 2;
                 continue;
             } else if i + 1 == lines.len() && (panic_in("src/render.rs") || panic_in("/src/rect.rs")) {
-                c.emit(&req, &format!("panic:{}", tr.panic.as_ref().unwrap().site));
+                c.emit(&req, &format!("panic:{}", tr.panic.as_ref().unwrap().site.split("_@").next().unwrap_or("")));
             } else {
                 c.emit(&req, "none");
             }
@@ -201,7 +201,8 @@ fn parse_filter(tree: &usvg::Tree, tr: &Traced, lines: &[String], mut i: usize, 
         let panicked_here = at_end && !complete && tr.panic.as_ref().map(|p| p.site.contains("src/filter/")).unwrap_or(false);
         let mut ans = sizes.join(" ");
         if panicked_here {
-            ans = format!("{} panic:{}", ans, tr.panic.as_ref().unwrap().site).trim().to_string();
+            // the model predicts the assertion that fires, not the function name the hook appends
+            ans = format!("{} panic:{}", ans, tr.panic.as_ref().unwrap().site.split("_@").next().unwrap_or("")).trim().to_string();
         }
         c.emit(&format!("sizebook {} {} {} {} {} {}", rw, rh, sw, sh, sizes.len(), toks.join(" ")).trim_end().to_string(), &ans);
     }
@@ -375,7 +376,7 @@ pub fn search(tier: &str, seed: u64, s: &mut Search) {
             }
             if out2 == Outcome::Timeout {
                 // name the per-pixel kernel whose window is not clamped to the canvas, if the document has one
-                let sig = if svg.contains("<feMorphology") { "slow:feMorphology-window-on-unclamped-region" } else if svg.contains("<feConvolveMatrix") { "slow:feConvolveMatrix" } else { "hang:render" };
+                let sig = if svg.contains("<feMorphology") { "slow:feMorphology-window-on-unclamped-region" } else if svg.contains("<feConvolveMatrix") { "slow:feConvolveMatrix" } else if svg.contains("<feTurbulence") && svg.contains("numOctaves") { "slow:feTurbulence-numOctaves-unbounded" } else { "hang:render" };
                 s.finding(sig, "rendering does not finish within 20 s even on a 32x32 canvas", &key);
             } else {
                 s.case("slow-but-bounded", &key, false);
@@ -401,6 +402,35 @@ pub fn search(tier: &str, seed: u64, s: &mut Search) {
         let (cw, ch) = rand_canvas(&mut rng);
         let ts = rand_ts(&mut rng);
         run(&mut wk, s, if i % 2 == 0 { "generated" } else { "generated-b" }, &svg, cw, ch, ts);
+    }
+    // per-pixel kernels on thin layers: every small layer extent against every kernel size
+    // (box / IIR blur radii, morphology and convolve windows, displacement, tile) on both axes
+    let sigmas = ["0.3", "1", "1.9", "2", "2.5", "3", "4", "5", "6", "8", "10", "12", "20"];
+    let mut k = 0usize;
+    for extent in 1..=16u32 {
+        for sg in sigmas {
+            for vertical in [false, true] {
+                k += 1;
+                let (rw, rh) = if vertical { (40, extent) } else { (extent, 40) };
+                let prim = match (k / 2) % 6 {
+                    0 | 1 => format!(r#"<feGaussianBlur stdDeviation="{sg}"/>"#),
+                    2 => format!(r#"<feDropShadow dx="1" dy="1" stdDeviation="{sg}"/>"#),
+                    3 => format!(r#"<feMorphology operator="dilate" radius="{sg}"/>"#),
+                    4 => format!(r#"<feGaussianBlur stdDeviation="{sg} 0"/><feGaussianBlur stdDeviation="0 {sg}"/>"#),
+                    _ => format!(r#"<feConvolveMatrix order="3" kernelMatrix="1 1 1 1 1 1 1 1 1"/><feGaussianBlur stdDeviation="{sg}"/><feTile/>"#),
+                };
+                // the filter region is the shape itself, so the layer is exactly `extent` pixels thin
+                let svg = format!(
+                    r##"<svg xmlns="http://www.w3.org/2000/svg" width="60" height="60"><filter id="f" filterUnits="userSpaceOnUse" x="5" y="5" width="{rw}" height="{rh}">{prim}</filter><rect x="5" y="5" width="{rw}" height="{rh}" fill="green" filter="url(#f)"/></svg>"##
+                );
+                run(&mut wk, s, "thin-layer", &svg, 60, 60, tiny_skia::Transform::identity());
+                // and with the default (objectBoundingBox, 10% margin) region
+                let svg = format!(
+                    r##"<svg xmlns="http://www.w3.org/2000/svg" width="60" height="60"><filter id="f">{prim}</filter><rect x="8" y="8" width="{rw}" height="{rh}" fill="green" filter="url(#f)"/></svg>"##
+                );
+                run(&mut wk, s, "thin-layer", &svg, 60, 60, tiny_skia::Transform::identity());
+            }
+        }
     }
     // corpus files with adversarial magnitudes spliced into numeric attributes
     // (thorough tier, or when a proof/correspondence obligation broke and the search is steered)
